@@ -356,9 +356,17 @@ class Tree(productmd.common.MetadataBase):
             self.platforms.add(i)
 
         if parser.has_option("general", "timestamp"):
-            self.build_timestamp = int(parser.getfloat("general", "timestamp"))
+            self.build_timestamp = self._parse_timestamp(parser.get("general", "timestamp"))
         else:
             self.build_timestamp = -1
+
+    @staticmethod
+    def _parse_timestamp(value):
+        # an integer timestamp is read exactly; going through float() would round anything beyond 2**53
+        try:
+            return int(value)
+        except ValueError:
+            return int(float(value))
 
     def deserialize_1_0(self, parser):
         section = self._section if parser.has_section(self._section) else "general"
@@ -366,7 +374,7 @@ class Tree(productmd.common.MetadataBase):
         self.arch = parser.get(section, "arch")
         self.platforms = set([i for i in parser.get(section, "platforms").split(",") if i])
         if section == self._section:
-            self.build_timestamp = int(parser.getfloat(self._section, "build_timestamp"))
+            self.build_timestamp = self._parse_timestamp(parser.get(self._section, "build_timestamp"))
         else:
             self.build_timestamp = -1
 
